@@ -31,7 +31,7 @@ Cut(st, drop, keep) == SubSeq(st, CutIdx(st, drop, keep) + 1, Len(st))
 Val(bag, st, k) == IF st \in DOMAIN bag THEN bag[st][k] ELSE 0
 SameBag(b1, b2) == \A st \in (DOMAIN b1) \cup (DOMAIN b2) : \A k \in 1..NCols : Val(b1, st, k) = Val(b2, st, k)
 HasFrame(st, S) == \E i \in DOMAIN st : st[i] \in S
-NoOpts == [focus |-> {}, ignore |-> {}, hide |-> {}, show |-> {}, tf |-> {}, ti |-> {}, si |-> NCols, rel |-> FALSE, g |-> "functions"]
+NoOpts == [focus |-> {}, ignore |-> {}, hide |-> {}, show |-> {}, tf |-> {}, ti |-> {}, si |-> NCols, rel |-> FALSE, g |-> "functions", mean |-> FALSE]
 \* granularity: the entry a frame is counted under; at files granularity the functions a and b share a file
 FileOf(f) == CASE f \in {"a", "b"} -> "zz1.x" [] f = "c" -> "zz2.x" [] f = "d" -> "zz3.x" [] OTHER -> "zz4.x"
 Ent(o, f) == IF o.g = "files" THEN FileOf(f) ELSE f
@@ -46,29 +46,40 @@ V(p, st) == Cut(st.s, p.drop, p.keep)
 Kept(p, o) == {st \in DOMAIN p.bag : /\ (o.focus = {} \/ HasFrame(V(p, st), o.focus)) /\ ~HasFrame(V(p, st), o.ignore)
                                       /\ (o.tf = {} \/ st.t \in o.tf) /\ st.t \notin o.ti}
 SumOver(S, f(_)) == FoldSet(LAMBDA st, acc : acc + f(st), 0, S)
+Abs(x) == IF x < 0 THEN 0 - x ELSE x
 \* hide removes the frames it names, show keeps only the frames it names; focus and ignore were decided on the
 \* stack before that (Kept); a sample whose frames are all gone is removed with them (Visible)
 Shown(p, o, st) == SelectSeq(V(p, st), LAMBDA f : (o.show = {} \/ f \in o.show) /\ f \notin o.hide)
 Visible(p, o) == {st \in Kept(p, o) : Len(Shown(p, o, st)) > 0}
-Flat(p, o, e) == SumOver({st \in Kept(p, o) : Len(Shown(p, o, st)) > 0 /\ Ent(o, Shown(p, o, st)[1]) = e}, LAMBDA st : p.bag[st][o.si])
-Cum(p, o, e) == SumOver({st \in Kept(p, o) : HasEntry(Shown(p, o, st), o, e)}, LAMBDA st : p.bag[st][o.si])
-\* the total is the sum of the MAGNITUDES of the (merged) samples: with -base the differences count with their size
-Abs(x) == IF x < 0 THEN 0 - x ELSE x
+\* -mean: every figure is the sum of the selected column divided by the sum of the FIRST column over the same
+\* samples (integer division truncating toward zero; an empty or zero divisor leaves the sum as it is)
+TDiv(a, b) == IF (a < 0) = (b < 0) THEN Abs(a) \div Abs(b) ELSE 0 - (Abs(a) \div Abs(b))
+MeanOf(o, w, d) == IF o.mean /\ d # 0 THEN TDiv(w, d) ELSE w
+Sum1(p, S, k) == SumOver(S, LAMBDA st : p.bag[st][k])
+FlatSet(p, o, e) == {st \in Kept(p, o) : Len(Shown(p, o, st)) > 0 /\ Ent(o, Shown(p, o, st)[1]) = e}
+CumSet(p, o, e) == {st \in Kept(p, o) : HasEntry(Shown(p, o, st), o, e)}
+RawFlat(p, o, e) == Sum1(p, FlatSet(p, o, e), o.si)
+RawCum(p, o, e) == Sum1(p, CumSet(p, o, e), o.si)
+Flat(p, o, e) == MeanOf(o, RawFlat(p, o, e), Sum1(p, FlatSet(p, o, e), 1))
+Cum(p, o, e) == MeanOf(o, RawCum(p, o, e), Sum1(p, CumSet(p, o, e), 1))
 \* with -diff_base only the base samples count, if they have any weight: percentages are relative to the base
 Total(p, o) ==
   LET S == IF o.rel THEN Visible(p, o) ELSE DOMAIN p.bag
-      base == SumOver({st \in S : st.b}, LAMBDA st : Abs(p.bag[st][o.si]))
-  IN IF base > 0 THEN base ELSE SumOver(S, LAMBDA st : Abs(p.bag[st][o.si]))
+      B == {st \in S : st.b}
+      base == SumOver(B, LAMBDA st : Abs(p.bag[st][o.si]))
+      T == IF base > 0 THEN B ELSE S
+  IN MeanOf(o, SumOver(T, LAMBDA st : Abs(p.bag[st][o.si])), Sum1(p, T, 1))
 FnsOf(p) == UNION {{V(p, st)[i] : i \in DOMAIN V(p, st)} : st \in DOMAIN p.bag}
-TopRows(p, o) == {[fn |-> e, flat |-> Flat(p, o, e), cum |-> Cum(p, o, e)] : e \in {Ent(o, f) : f \in FnsOf(p)}}
+TopRows(p, o) == {[fn |-> e, flat |-> Flat(p, o, e), cum |-> Cum(p, o, e), rawflat |-> RawFlat(p, o, e), rawcum |-> RawCum(p, o, e)] : e \in {Ent(o, f) : f \in FnsOf(p)}}
 \* caller -> callee edges of a tree report. A stack is leaf first, so the caller of st[i] is st[i + 1]; an adjacency
 \* counts once per sample; samples whose selected value is 0 do not build the graph; an entry with flat = cum = 0 is not
 \* part of a report and its edges go with it (nothing bridges over it)
 EntSeq(p, o, st) == [i \in DOMAIN Shown(p, o, st) |-> Ent(o, Shown(p, o, st)[i])]
 AdjIn(es, a, b) == a # b /\ \E i \in 1..(Len(es) - 1) : es[i + 1] = a /\ es[i] = b
-Builders(p, o) == {st \in Visible(p, o) : p.bag[st][o.si] # 0}
-ShownEntries(p, o) == {r.fn : r \in {x \in TopRows(p, o) : x.flat # 0 \/ x.cum # 0}}
-EdgeW(p, o, a, b) == SumOver({st \in Builders(p, o) : AdjIn(EntSeq(p, o, st), a, b)}, LAMBDA st : p.bag[st][o.si])
+Builders(p, o) == {st \in Visible(p, o) : p.bag[st][o.si] # 0 \/ (o.mean /\ p.bag[st][1] # 0)}
+ShownEntries(p, o) == {r.fn : r \in {x \in TopRows(p, o) : x.rawflat # 0 \/ x.rawcum # 0}}
+EdgeSet(p, o, a, b) == {st \in Builders(p, o) : AdjIn(EntSeq(p, o, st), a, b)}
+EdgeW(p, o, a, b) == MeanOf(o, Sum1(p, EdgeSet(p, o, a, b), o.si), Sum1(p, EdgeSet(p, o, a, b), 1))
 TreeEdges(p, o) == {[src |-> a, dst |-> b, w |-> EdgeW(p, o, a, b)] :
                       <<a, b>> \in {pr \in ShownEntries(p, o) \X ShownEntries(p, o) : \E st \in Builders(p, o) : AdjIn(EntSeq(p, o, st), pr[1], pr[2])}}
 \* a traces report: the kept stacks as seen, with their value in the selected column (zero entries are not printed)
@@ -76,7 +87,7 @@ TraceRows(p, o) ==
   LET K == {st \in Kept(p, o) : Len(Shown(p, o, st)) > 0}
       E(st) == [i \in DOMAIN Shown(p, o, st) |-> Ent(o, Shown(p, o, st)[i])]
       T == {E(st) : st \in K}
-      W(t) == SumOver({st \in K : E(st) = t}, LAMBDA st : p.bag[st][o.si])
+      W(t) == SumOver({st \in K : E(st) = t}, LAMBDA st : MeanOf(o, p.bag[st][o.si], p.bag[st][1]))
   IN {[stack |-> t, w |-> W(t)] : t \in {x \in T : W(x) # 0}}
 
 =============================================================================
